@@ -76,11 +76,13 @@ example (s : State) : MaterialBounded s ↔
     (C05.materialDiff s s.turn).natAbs + C05.positionalDiff s s.turn < 10000 := Iff.rfl
 example (s : State) : TreeBounded s ↔ ∀ s', Reachable s s' → MaterialBounded s' := Iff.rfl
 
-/-- **StaticOK.**  Under the material bound, `evaluate(state, turn_to_move, depth)` is terminal only in the mate
-branch: no legal move, in check, value `-mate_in_ply(depth)`. -/
-theorem C06_static_ok (s : State) (d : Nat) (e : Eval) (hb : MaterialBounded s)
+/-- **StaticOK.**  `evaluate(state, turn_to_move, depth)` is terminal only in the mate branch: no legal move, in
+check, value `-mate_in_ply(depth)`.  The hypothesis `MaterialBounded s` is REDUNDANT since the repair of defect F10
+(the heuristic score is clamped to `[NEG_INF+1, POS_INF-1]`); it is kept so that the theorem keeps its signature —
+`C06_static_ok_all` (Wee/Props/Clamped.lean) is the statement without it. -/
+theorem C06_static_ok (s : State) (d : Nat) (e : Eval) (_hb : MaterialBounded s)
     (h : evaluate s s.turn d = some e) (ht : Ev.isTerminal e = true) :
-    legalMoves? s = some [] ∧ s.isCheck = true ∧ e = - Ev.mateInPly d := static_ok hb h ht
+    legalMoves? s = some [] ∧ s.isCheck = true ∧ e = - Ev.mateInPly d := static_ok h ht
 
 /-! ## 3. quiescence -/
 
@@ -88,10 +90,11 @@ theorem C06_static_ok (s : State) (d : Nat) (e : Eval) (hb : MaterialBounded s)
 `alpha < beta`) on a position whose reachable tree satisfies the material bound is `SoundVal`.
 Cases: no legal move (mate ⇒ `Lost` by `Lost.mated`; stalemate ⇒ a non-terminal value), quiet position and
 `normal_eval >= beta` (stand-pat is non-terminal), capture loop (a win claim comes from a capture whose successor
-is `Lost`; the result is `beta` or at least the stand-pat value, so the loop never claims a loss). -/
-theorem C06_quiesce_sound (fuel : Nat) (s : State) (depth : Nat) (α β r : Eval) (htb : TreeBounded s) (hαβ : α < β)
+is `Lost`; the result is `beta` or at least the stand-pat value, so the loop never claims a loss).
+`TreeBounded s` is redundant since the repair of F10 (kept for the signature; `C06_quiesce_sound_all` drops it). -/
+theorem C06_quiesce_sound (fuel : Nat) (s : State) (depth : Nat) (α β r : Eval) (_htb : TreeBounded s) (hαβ : α < β)
     (h : quiesce evaluate fuel s depth α β = .ok r) : SoundVal s α β r :=
-  quiesce_sound fuel s depth α β r htb hαβ h
+  quiesce_sound fuel s depth α β r hαβ h
 
 /-! ## 4. the table invariant, the domain of positions, `analyze_recursive` -/
 
@@ -139,18 +142,24 @@ theorem reachable_legal {root : State} (hl : LegalPos root = true) (hd : Disjoin
   | step r _ hr ih =>
     exact ⟨C02_closed _ ih.1 ih.2 r hr, (C02_successor_invariants _ ih.1 ih.2 r hr).1⟩
 
-/-- **the domain of a search from a legal root**: the positions reachable from `root` by legal moves form a
-`Domain` — closed under legal moves, the move generator does not panic on them (C01/C02), the static evaluation is
-bounded (`TreeBounded root`), and colliding positions are interchangeable (`CollisionFree`). -/
-theorem Domain.ofRoot {K : Keys} {root : State} (hl : LegalPos root = true) (hd : DisjointBoard root.pieces)
-    (htb : TreeBounded root) (hcf : CollisionFree K (Reachable root)) : Domain K (Reachable root) where
+/-- **the domain of a search from a legal root, no material hypothesis**: the positions reachable from `root` by
+legal moves form a `Domain` — closed under legal moves, the move generator does not panic on them (C01/C02), and
+colliding positions are interchangeable (`CollisionFree`).  (Since the repair of F10 a `Domain` no longer asks for a
+bounded static evaluation.) -/
+theorem Domain.ofRoot_all {K : Keys} {root : State} (hl : LegalPos root = true) (hd : DisjointBoard root.pieces)
+    (hcf : CollisionFree K (Reachable root)) : Domain K (Reachable root) where
   closed := fun _ hs r hr => Reachable.step r hs hr
   genOK := fun s hs => by
     obtain ⟨h1, h2⟩ := reachable_legal hl hd s hs
     obtain ⟨_, L, _, hL, _⟩ := legalMoves_spec C02_applyCorrect s h1 h2
     rw [hL]; exact fun h => nomatch h
-  bounded := fun s hs => htb s hs
   coll := fun s s' hs hs' hk e he => (hcf s s' hs hs' (UInt64.toNat_inj.1 hk)).entry he
+
+/-- **the domain of a search from a legal root** (signature of the pre-F10 development: `TreeBounded root` is now
+redundant, see `Domain.ofRoot_all`). -/
+theorem Domain.ofRoot {K : Keys} {root : State} (hl : LegalPos root = true) (hd : DisjointBoard root.pieces)
+    (_htb : TreeBounded root) (hcf : CollisionFree K (Reachable root)) : Domain K (Reachable root) :=
+  Domain.ofRoot_all hl hd hcf
 
 /-- a fresh table satisfies the table invariant -/
 theorem TTInv.fresh (K : Keys) (D : State → Prop) {nT nB : Nat} (hT : 0 < nT) (hB : 0 < nB) :
